@@ -107,6 +107,7 @@ class Build:
             self.failures.append(("obligation", "tools/extract.py: a table of the source could not be located", (r.stdout + r.stderr)[-400:]))
         else:
             old = open(gen, encoding="utf-8").read() if os.path.exists(gen) else ""
+            self.previous_tables = old
             if r.stdout.rstrip("\n") != old.rstrip("\n"):
                 open(gen, "w", encoding="utf-8").write(r.stdout)
                 self.notes.append("Generated.lean differs from the committed tables")
@@ -128,14 +129,23 @@ class Build:
             # which module / theorem broke
             broken = re.findall(r"error: (\S+?\.lean):(\d+):\d+: (.*)", detail)
             self.failures.append(("obligation", "lake build: " + "; ".join("%s:%s %s" % (os.path.basename(a), b, c[:80]) for a, b, c in broken[:4]), detail[-1500:]))
-            # fall back to the committed tables so that the oracle can still run
+            # fall back to the previous / committed tables so that the search for a failing input can still run
             gen = os.path.join(LEAN, "Wax", "Generated.lean")
+            candidates = []
             g = sh(["git", "-C", VERIF, "show", "HEAD:lean/Wax/Generated.lean"])
             if g.returncode == 0:
-                open(gen, "w", encoding="utf-8").write(g.stdout)
-            r2 = sh(["lake", "build", "Wax", "waxmodel"], cwd=LEAN)
-            if r2.returncode != 0:
-                raise BuildFailure("lean", "lake build failed even with the committed tables:\n" + (r2.stdout + r2.stderr)[-3000:])
+                candidates.append(g.stdout)
+            if getattr(self, "previous_tables", ""):
+                candidates.append(self.previous_tables)
+            ok = False
+            for text in candidates:
+                open(gen, "w", encoding="utf-8").write(text)
+                r2 = sh(["lake", "build", "Wax", "waxmodel"], cwd=LEAN)
+                if r2.returncode == 0:
+                    ok = True
+                    break
+            if not ok:
+                raise BuildFailure("lean", "lake build failed even with the committed tables:\n" + (r.stdout + r.stderr)[-3000:])
         self.times["lake"] = round(time.time() - t0, 2)
 
 
